@@ -37,6 +37,8 @@ type scriptReader struct {
 	err         error
 	consumed    int
 	calls       int
+	transient   bool // the failure happens ONCE; a caller that reads on afterwards gets bytes again
+	failed      bool
 }
 
 func (s *scriptReader) Read(p []byte) (int, error) {
@@ -45,9 +47,10 @@ func (s *scriptReader) Read(p []byte) (int, error) {
 	if s.chunk > 0 && n > s.chunk {
 		n = s.chunk
 	}
-	if s.avail >= 0 {
+	if s.avail >= 0 && !(s.transient && s.failed) {
 		left := s.avail - s.consumed
 		if left <= 0 {
+			s.failed = true
 			return 0, s.err
 		}
 		if n >= left {
@@ -57,6 +60,7 @@ func (s *scriptReader) Read(p []byte) (int, error) {
 			}
 			s.consumed += n
 			if s.errWithData {
+				s.failed = true
 				return n, s.err
 			}
 			return n, nil
@@ -184,11 +188,12 @@ func execSigForks(c *ctx, in ev) []ev {
 	case "Entropy":
 		curve := kbCurves[gS(in, "curve")]
 		key := sfKey(c.seed, curve, "k")
-		rd := &scriptReader{avail: gI(in, "avail"), chunk: gI(in, "chunk"), errWithData: gBool(in, "err_with_data"), err: errOf(gS(in, "errkind"))}
+		rd := &scriptReader{avail: gI(in, "avail"), chunk: gI(in, "chunk"), errWithData: gBool(in, "err_with_data"), err: errOf(gS(in, "errkind")),
+			transient: gBool(in, "transient")}
 		fn := gS(in, "fn")
 		d := hashBytes(c.seed, "entropy-digest", 32)
 		e := ev{"op": op, "curve": gS(in, "curve"), "fn": fn, "avail": rd.avail, "chunk": rd.chunk, "err_with_data": rd.errWithData, "errkind": gS(in, "errkind"),
-			"need": 32, "coin": true, "outcome": "error", "nil_out": false, "valid_out": false}
+			"need": 32, "coin": true, "outcome": "error", "nil_out": false, "valid_out": false, "transient": rd.transient}
 		e["panic"] = guard(func() {
 			switch fn {
 			case "GenerateKey":
@@ -443,6 +448,39 @@ func wrapCase(curve elliptic.Curve, digest []byte, sv *big.Int, start int64) (qx
 	return nil, nil, nil, false
 }
 
+// xZeroCase: a valid (digest, r, s) under the public key (0, sqrt(b)) - a point of the curve whose x coordinate is zero
+// (P-256, P-384, P-521 have one). Nobody knows its private key: the signature is made by choosing u1, u2.
+func xZeroCase(curve elliptic.Curve, seed int64, k int) (qy *big.Int, digest []byte, r, s *big.Int, ok bool) {
+	pr := curve.Params()
+	if new(big.Int).Mod(pr.P, big.NewInt(4)).Int64() != 3 {
+		return nil, nil, nil, nil, false
+	}
+	y := new(big.Int).Exp(pr.B, new(big.Int).Rsh(new(big.Int).Add(pr.P, big.NewInt(1)), 2), pr.P)
+	if new(big.Int).Mod(new(big.Int).Mul(y, y), pr.P).Cmp(new(big.Int).Mod(pr.B, pr.P)) != 0 {
+		return nil, nil, nil, nil, false
+	}
+	if k%2 == 1 {
+		y.Sub(pr.P, y)
+	}
+	u1, u2 := kbScalar(seed, curve, fmt.Sprintf("xzero-u1-%d", k)), kbScalar(seed, curve, fmt.Sprintf("xzero-u2-%d", k))
+	ax, ay := curve.ScalarBaseMult(u1.Bytes())
+	bx, by := curve.ScalarMult(big.NewInt(0), y, u2.Bytes())
+	rx, _ := curve.Add(ax, ay, bx, by)
+	r = new(big.Int).Mod(rx, pr.N)
+	if r.Sign() == 0 {
+		return nil, nil, nil, nil, false
+	}
+	s = new(big.Int).Mul(r, new(big.Int).ModInverse(u2, pr.N))
+	s.Mod(s, pr.N)
+	e := new(big.Int).Mul(u1, s)
+	e.Mod(e, pr.N)
+	ob := (pr.N.BitLen() + 7) / 8
+	if excess := ob*8 - pr.N.BitLen(); excess > 0 { // hashToInt shifts the excess bits out
+		e.Lsh(e, uint(excess))
+	}
+	return y, e.FillBytes(make([]byte, ob)), r, s, true
+}
+
 func genSigForks(c *ctx, emit func(ev)) {
 	r := newRand(c.seed, "sigforks")
 	want := func(s string) bool { return c.arg == "" || strings.Contains(","+c.arg+",", ","+s+",") }
@@ -507,6 +545,11 @@ func genSigForks(c *ctx, emit func(ev)) {
 						emit(ev{"op": "VerifyRS", "curve": cname, "digest": B(wd), "qx": B(qx.Bytes()), "qy": B(qy.Bytes()), "r": B(wr.Bytes()), "rneg": false,
 							"s": B(ws.Bytes()), "sneg": false, "valid": true, "cls": "x-wraps-N"})
 					}
+				}
+				// a valid signature under the curve point with x = 0 (a coordinate that is zero is not the point at infinity)
+				if qy, xd, xr, xs, ok := xZeroCase(curve, c.seed, rep); ok {
+					emit(ev{"op": "VerifyRS", "curve": cname, "digest": B(xd), "qx": B([]byte{0}), "qy": B(qy.Bytes()), "r": B(xr.Bytes()), "rneg": false,
+						"s": B(xs.Bytes()), "sneg": false, "valid": true, "cls": "key-x-zero"})
 				}
 				// the same signature against another digest
 				emit(ev{"op": "VerifyRS", "curve": cname, "digest": B(randBytes(r, 32)), "r": B(rr.Bytes()), "rneg": false, "s": B(ss.Bytes()), "sneg": false, "valid": false, "cls": "other-digest"})
@@ -629,6 +672,10 @@ func genSigForks(c *ctx, emit func(ev)) {
 							}
 							for _, k := range kinds {
 								emit(ev{"op": "Entropy", "curve": cname, "fn": fn, "avail": a, "chunk": chunk, "err_with_data": ewd, "errkind": k})
+								if k == "custom" && a >= 0 {
+									// the same failure happening ONCE (the source recovers): an error all the same
+									emit(ev{"op": "Entropy", "curve": cname, "fn": fn, "avail": a, "chunk": chunk, "err_with_data": ewd, "errkind": k, "transient": true})
+								}
 							}
 						}
 					}
